@@ -88,6 +88,7 @@ type PkgSpec struct {
 	Pure      map[string]*PureFn
 	Lemmas    []*Lemma
 	Extern    map[string]bool // extern interfaces: invoke = trace event
+	PureM     map[string]bool // "Iface.Method": deterministic, effect-free interface methods
 	Closed    map[string]*ClosedIface
 	Protos    map[string]*Protocol
 	Locks     []*LockSpec
@@ -193,7 +194,7 @@ func parseParams(s string) []BoundVar {
 
 func parsePkgSpec(pkg string, lines []specLine) (*PkgSpec, error) {
 	ps := &PkgSpec{Pkg: pkg, Contracts: map[string]*Contract{}, Preds: map[string]*Pred{}, Pure: map[string]*PureFn{},
-		Extern: map[string]bool{}, Closed: map[string]*ClosedIface{}, Protos: map[string]*Protocol{}}
+		Extern: map[string]bool{}, PureM: map[string]bool{}, Closed: map[string]*ClosedIface{}, Protos: map[string]*Protocol{}}
 	var cur *Contract
 	var curCase *Case
 	var curProto *Protocol
@@ -229,6 +230,10 @@ func parsePkgSpec(pkg string, lines []specLine) (*PkgSpec, error) {
 			cur, curProto, curLock = nil, nil, nil
 		case "pure":
 			// pure func name(params) result
+			if strings.HasPrefix(rest, "method") {
+				ps.PureM[strings.TrimSpace(strings.TrimPrefix(rest, "method"))] = true
+				continue
+			}
 			r := strings.TrimSpace(strings.TrimPrefix(rest, "func"))
 			i := strings.Index(r, "(")
 			j := matchParen(r, i)
